@@ -28,6 +28,7 @@ package file
 //@ ensures [C02-skip] result1 == nil && !force && old(diskOK(cp(s))) && ioOK ==> forall i int :: {result0[i]} 0 <= i && i < len(result0) && len(inputs(mapval(s.Globs), runOrder[i])) > 0 && old(diskGet(cp(s), runOrder[i].Name)) != "" && old(diskGet(cp(s), runOrder[i].Name)) == cur(mapval(s.Globs), runOrder[i]) ==> result0[i].Skipped
 //@ ensures [C02-persist] result1 == nil ==> diskOK(cp(s)) && forall i int :: {result0[i]} 0 <= i && i < len(result0) && !result0[i].Skipped && len(inputs(mapval(s.Globs), runOrder[i])) > 0 && cmdsOk(result0[i].CommandResults, len(result0[i].CommandResults)) ==> diskGet(cp(s), runOrder[i].Name) == cur(mapval(s.Globs), runOrder[i])
 //@ ensures [C09-notcached] result1 == nil ==> forall i int :: {result0[i]} 0 <= i && i < len(result0) && !result0[i].Skipped && !cmdsOk(result0[i].CommandResults, len(result0[i].CommandResults)) ==> diskGet(cp(s), runOrder[i].Name) == "" && last[runOrder[i].Name] == ""
+//@ ensures [C03,exec-once] result1 == nil ==> forall i int :: {result0[i]} 0 <= i && i < len(result0) ==> ranCount[runOrder[i].Name] == old(ranCount)[runOrder[i].Name] + (result0[i].Skipped ? 0 : 1)
 //@ at return Run#0: ghost last = store(last, taskToRun.Name, (err == nil && cmdsOk(result, len(result)) ? cur(mapval(s.Globs), taskToRun) : ""))
 //@ loop 0: invariant 0 <= $i && $i <= len(runOrder) && len(results) == $i
 //@ loop 0: invariant CacheInv(cachedState) && memIsDisk(cachedState, cp(s)) && I01(cp(s))
@@ -39,6 +40,8 @@ package file
 //@ loop 0: invariant !force && old(diskOK(cp(s))) && ioOK ==> forall k int :: {results[k]} 0 <= k && k < $i && len(inputs(mapval(s.Globs), runOrder[k])) > 0 && old(diskGet(cp(s), runOrder[k].Name)) != "" && old(diskGet(cp(s), runOrder[k].Name)) == cur(mapval(s.Globs), runOrder[k]) ==> results[k].Skipped
 //@ loop 0: invariant forall k int :: {results[k]} 0 <= k && k < $i && !results[k].Skipped && len(inputs(mapval(s.Globs), runOrder[k])) > 0 && cmdsOk(results[k].CommandResults, len(results[k].CommandResults)) ==> diskGet(cp(s), runOrder[k].Name) == cur(mapval(s.Globs), runOrder[k])
 //@ loop 0: invariant forall k int :: {results[k]} 0 <= k && k < $i && !results[k].Skipped && !cmdsOk(results[k].CommandResults, len(results[k].CommandResults)) ==> diskGet(cp(s), runOrder[k].Name) == "" && last[runOrder[k].Name] == ""
+//@ loop 0: invariant forall k int :: {results[k]} 0 <= k && k < $i ==> ranCount[runOrder[k].Name] == old(ranCount)[runOrder[k].Name] + (results[k].Skipped ? 0 : 1)
+//@ loop 0: invariant forall j int :: {runOrder[j]} $i <= j && j < len(runOrder) ==> ranCount[runOrder[j].Name] == old(ranCount)[runOrder[j].Name]
 //@ loop 0: decreases len(runOrder) - $i
 //@ loop 1: invariant 0 <= $i && $i <= len(taskToRun.GlobDependencies) && toHash == globCat(mapval(s.Globs), taskToRun.GlobDependencies, $i)
 //@ loop 1: decreases len(taskToRun.GlobDependencies) - $i
